@@ -71,9 +71,10 @@ theorem modStream_lbl_acc (l : Lbl) (k : Nat) (f : Stream → Stream) (hl : l.ke
   cases hs : s.store.get? k with
   | none => rw [modStream_absent f hs]; exact panic_acc _ h
   | some a =>
-    refine h.lbl l (El.modStream s k f hf (fun x hx => ES.other l x ?_) (hm _) ?_ (by rw [hs]; rfl)) ok
+    refine h.lbl l (El.modStream s k f hf (fun x hx => ES.other l x ?_) (hm _) ?_ ?_ (by rw [hs]; rfl)) ok
     · rw [hl]; intro e; exact hx (Option.some.inj e).symm
-    · intro j g e; cases e; exact Option.some.inj hl
+    · intro l' j e hj; cases e; rw [hl] at hj; exact (Option.some.inj hj).symm
+    · intro j e; cases e; simp [Lbl.key?] at hl
 
 /-- `pending_send.push_back(frame)` -/
 theorem push_acc (k : Nat) (f : SFrame) (hA : P.ok (.push k f)) (h : Tr P s0 s) : Tr P s0 (s.modStream k (pushF f)) := by
@@ -82,7 +83,8 @@ theorem push_acc (k : Nat) (f : SFrame) (hA : P.ok (.push k f)) (h : Tr P s0 s) 
   exact ⟨rfl, rfl, fun h => h, by simp [pushF, sendEff, hk], rfl, trivial⟩
 grind_pattern push_acc => Tr P s0 (s.modStream k (pushF f))
 
-@[grind ←] theorem ok_push_reset (P : Perm) (k : Nat) (r : Reason) : P.ok (.push k (.reset r)) := Or.inl rfl
+theorem ok_push_reset {P : Perm} {k : Nat} (r : Reason) (hc : P.cut k) : P.ok (.push k (.reset r)) := Or.inr ⟨rfl, hc⟩
+grind_pattern ok_push_reset => P.ok (.push k (.reset r))
 
 /-- `pending_send.pop_front()`: the queue is replaced by its tail -/
 theorem pop_acc (k : Nat) (f : SFrame) (rest : List SFrame) (hq : (s.stream k).pendingSend = f :: rest) (hA : P.write)
@@ -101,7 +103,7 @@ theorem unpop_acc (k : Nat) (f : SFrame) (hA : P.write) (h : Tr P s0 s) : Tr P s
 grind_pattern unpop_acc => Tr P s0 (s.modStream k (unpopF f))
 
 /-- `pending_recv.push_back(event)` -/
-theorem rpush_acc (k : Nat) (e : REvent) (hA : P.rpush k) (h : Tr P s0 s) : Tr P s0 (s.modStream k (rpushF e)) := by
+theorem rpush_acc (k : Nat) (e : REvent) (hA : P.rpush k e) (h : Tr P s0 s) : Tr P s0 (s.modStream k (rpushF e)) := by
   refine modStream_lbl_acc (.rpush k e) k _ rfl (fun _ => rfl) (fun a ha => ?_) hA h
   have hk := (Store.get?_key ha).symm
   exact ⟨rfl, rfl, fun h => h, rfl, by simp [rpushF, recvEff, hk], trivial⟩
@@ -126,12 +128,18 @@ grind_pattern rclear_acc => Tr P s0 (s.modStream k (setRecvF []))
 /-- permissions for every entry at once (as named propositions: `grind` instantiates them through the
     patterns below, which is more reliable than local `∀` hypotheses) -/
 def CutAll (P : Perm) : Prop := ∀ k, P.cut k
-def RpushAll (P : Perm) : Prop := ∀ k, P.rpush k
+def RpushAll (P : Perm) : Prop := ∀ k e, P.rpush k e
+/-- any event may be queued on entry `k` -/
+def RpushAny (P : Perm) (k : Nat) : Prop := ∀ e, P.rpush k e
 def RclearAll (P : Perm) : Prop := ∀ k, P.rclear k
 theorem cut_of_all {P : Perm} (k : Nat) (h : CutAll P) : P.cut k := h k
 grind_pattern cut_of_all => P.cut k
-theorem rpush_of_all {P : Perm} (k : Nat) (h : RpushAll P) : P.rpush k := h k
-grind_pattern rpush_of_all => P.rpush k
+theorem rpush_of_all {P : Perm} (k : Nat) (e : REvent) (h : RpushAll P) : P.rpush k e := h k e
+grind_pattern rpush_of_all => P.rpush k e
+theorem rpush_of_any {P : Perm} {k : Nat} (e : REvent) (h : RpushAny P k) : P.rpush k e := h e
+grind_pattern rpush_of_any => P.rpush k e, RpushAny P k
+theorem rpushAny_of_all {P : Perm} (k : Nat) (h : RpushAll P) : RpushAny P k := h k
+grind_pattern rpushAny_of_all => RpushAny P k
 theorem rclear_of_all {P : Perm} (k : Nat) (h : RclearAll P) : P.rclear k := h k
 grind_pattern rclear_of_all => P.rclear k
 
@@ -194,7 +202,7 @@ theorem clearQueue_acc (k : Nat) (hc : P.cut k) (hcl : ClosedAt s k) (h : Tr P s
     unfold Streams.modStream; split
     · rfl
     · unfold Streams.panic; split <;> rfl
-  refine h.lbl (.cut k 0) ⟨Nat.le_of_eq hn.symm, ?_, ?_, ?_, by intro _ _ e; cases e⟩ hc
+  refine h.lbl (.cut k 0) ⟨Nat.le_of_eq hn.symm, ?_, ?_, ?_, (by intro _ _ e _ hcut; cases e; simp [Lbl.isCut] at hcut), (by intro _ e; cases e)⟩ hc
   · intro j a ha
     refine Or.inl ?_
     rw [hg]
